@@ -388,24 +388,26 @@ def check_events(obs, ro, ref, prog, cancelled=False):
                 if c != b + extra:
                     out.append(F(['C14'], 'complete_count_ne_attempts', node=n, bodies=b, completes=c,
                                  seq=''.join(seq.get(n, []))))
-    # last complete error flag vs node outcome
-    for n, r in last_complete.items():
-        prod_value = None
-        for x in reversed(evs):
-            if x['node'] == n and x['k'] in ('body_ret', 'body_next', 'body_raise', 'default_call'):
-                prod_value = x['k'] != 'body_raise'
-                if x['k'] == 'body_raise':
-                    # a default may follow the raise
-                    pass
-                break
-        # find whether a default followed the last raise
-        ks = [x['k'] for x in evs if x['node'] == n and x['k'] in ('body_ret', 'body_next', 'body_raise',
-                                                                     'default_call')]
-        if ks:
-            produced = ks[-1] != 'body_raise'
-            if produced != (r['err'] is None) and state.get(n) != 'started':
-                out.append(F(['C14'], 'last_complete_error_flag_wrong', node=n, produced=produced,
-                             err=r['errtype']))
+    # last complete error flag vs node outcome: for every node_complete, the body outcome events since
+    # the previous complete decide the flag (value / default => error None; raise => that exception)
+    pend = {}
+    for r in evs:
+        n = r['node']
+        k = r['k']
+        if k in ('body_ret', 'body_next', 'default_call'):
+            pend[n] = ('ok', None)
+        elif k == 'body_raise':
+            pend[n] = ('raise', r['oid'])
+        elif k == 'cb_node_complete':
+            got = pend.pop(n, None)
+            if got is None:
+                continue
+            if got[0] == 'ok' and r['err'] is not None and r['errtype'] not in ('CollabFault',):
+                out.append(F(['C14'], 'complete_reports_error_for_value', node=n, err=r['errtype']))
+            elif got[0] == 'raise' and r['err'] is None:
+                out.append(F(['C14'], 'complete_reports_success_for_failure', node=n))
+            elif got[0] == 'raise' and r['err'] != got[1]:
+                out.append(F(['C14'], 'complete_reports_other_exception', node=n, err=r['errtype']))
     # delivery before successful complete
     seen_ok_complete = set()
     produced_value = {}
